@@ -18,24 +18,43 @@ static void cfgv_errfunc(cfg_t *cfg, const char *fmt, va_list ap)
 	g_diag_line = cfg ? cfg->line : -1;
 }
 
-/* allocation in the harness itself never fails */
+/* allocation in the harness itself never fails.  Symbolic allocation sizes are very expensive in CBMC
+ * (DESIGN 2.2); cfgv_alloc_sw splits a small symbolic size into constant-size cases. */
 static void *cfgv_alloc(size_t n)
 {
 	void *p = malloc(n);
 	__CPROVER_assume(p != NULL);
 	return p;
 }
+static void *cfgv_alloc_sw(size_t n)
+{
+	__CPROVER_assume(n >= 1 && n <= 4);
+	if (n == 1) return cfgv_alloc(1);
+	if (n == 2) return cfgv_alloc(2);
+	if (n == 3) return cfgv_alloc(3);
+	return cfgv_alloc(4);
+}
+static void *cfgv_alloc_ptrs(size_t n)
+{
+	__CPROVER_assume(n >= 1 && n <= 4);
+	if (n == 1) return cfgv_alloc(1 * sizeof(void *));
+	if (n == 2) return cfgv_alloc(2 * sizeof(void *));
+	if (n == 3) return cfgv_alloc(3 * sizeof(void *));
+	return cfgv_alloc(4 * sizeof(void *));
+}
 
-/* a NUL-terminated string of at most max bytes with arbitrary content (bytes 1..255) */
+/* an owned NUL-terminated string of at most CFGV_STRN bytes with arbitrary content: a fixed-size block whose
+ * last byte is NUL (the length is decided by the content, not by the allocation size) */
+#ifndef CFGV_STRN
+#define CFGV_STRN 2
+#endif
 static char *cfgv_string(size_t max)
 {
-	size_t n = nondet_size();
-	char *s;
-	__CPROVER_assume(n <= max);
-	s = cfgv_alloc(n + 1);
-	s[n] = 0;
-	for (size_t i = 0; i < n; i++)
-		__CPROVER_assume(s[i] != 0);
+	char *s = cfgv_alloc(CFGV_STRN + 1);
+	(void)max;
+	for (size_t i = 0; i < CFGV_STRN; i++)
+		s[i] = nondet_char();
+	s[CFGV_STRN] = 0;
 	return s;
 }
 #endif
